@@ -477,6 +477,11 @@ class Interp:
         hook = self.models.symv_attr(self, obj, name)
         if hook is not None:
             return hook[0]
+        if name in ('startswith', 'endswith', 'lower', 'upper', 'replace', 'split', 'join', 'strip'):
+            # string methods on a value that may or may not be a string
+            if st.branch(PyV.is_str_(t), 'is-str'):
+                return self.get_attr(SymS(PyV.s(t)), name)
+            self.raise_builtin('AttributeError', f'{name} of a non-string')
         if st.branch(PyV.is_none(t), 'attr-of-none'):
             self.raise_builtin('AttributeError', f'None.{name}')
         return lower(attr_fn(name)(t), st)
@@ -1624,6 +1629,8 @@ class Interp:
             st.counter = counter0      # sub-paths share the names of their common prefix
             try:
                 v = thunk()
+                if isinstance(v, Ref) and v.cls in st.value_classes:
+                    v = SymV(lift(v, st))      # value objects are turned into terms while their fields still exist
                 bad = [x.kind for x in st.effects[n_eff:] if x.kind in IMPURE_EFFECTS]
                 for oid, fields in heap_before.items():
                     cur = st.heap.get(oid, {})
